@@ -25,7 +25,7 @@ type C10Case struct {
 }
 
 func genC10(t *rapid.T) C10Case {
-	lim := tierLimits()
+	lim := genLimits(t)
 	full, part := genMapCfg(t, "full"), genMapCfg(t, "part")
 	full.Full, part.Full = true, false
 	c := C10Case{Cfgs: []Cfg{{Kind: "pollard"}, full, part}}
